@@ -142,7 +142,8 @@ def entry_case(rng, tmpdir, i):
         schema, rows = gen.gen_content(rng, max_rows=6, max_len=4)
     ragged = i % 2 == 1
     entry = ["constructor", "from_sequence", "pack_seq", "series_dtype", "pack_lists", "from_lists", "astype", "parquet",
-             "constructor_chunked", "from_sequence_df", "take_fill", "reindex_fill", "setitem", "set_list_field"][(i // 2) % 14]
+             "constructor_chunked", "from_sequence_df", "take_fill", "reindex_fill", "setitem", "set_list_field",
+             "reduce_pack", "astype_nested"][(i // 2) % 16]
     offered = make_ragged(rng, schema, rows, allow_null=entry not in ("from_sequence_df", "take_fill", "reindex_fill", "setitem", "set_list_field")) if ragged else rows
     if offered is None:
         offered, ragged = rows, False
@@ -153,10 +154,16 @@ def entry_case(rng, tmpdir, i):
         return fill_entry_case(rng, entry, schema, rows, ragged)
     if entry in ("setitem", "set_list_field"):
         return assign_entry_case(rng, entry, schema, rows, ragged)
+    if entry == "reduce_pack":
+        return reduce_pack_case(rng, schema, rows, offered, ragged)
+    if entry == "astype_nested":
+        # a cast to a nested dtype announcing a field the column does not have: Arrow fills it with a NULL list in every row,
+        # so every present row that holds elements becomes ragged - the cast is an entry point like the others
+        offered, ragged = rows, any(r is not None and any(len(v) for v in r.values()) for r in rows)
     # a special physical form for the constructor: every field a window of list arrays built over ONE shared offsets array,
     # the windows shifted against each other (field j starts at row j): rectangular iff neighbouring rows have equal lengths
     shared = None
-    if entry == "constructor" and (i // 28) % 2 == 1 and len(rows) >= 1:
+    if entry == "constructor" and (i // 32) % 2 == 1 and len(rows) >= 1:
         nrow = len(rows)
         k = len(schema)
         base_len = rng.randint(0, 3)
@@ -211,6 +218,10 @@ def entry_case(rng, tmpdir, i):
                 return pack_lists(df).array
             df["base"] = range(len(df))
             return NestedFrame.from_lists(NestedFrame(df), base_columns=["base"], name="n")["n"].array
+        if entry == "astype_nested":
+            src = pd.Series(NEA(struct_from_rows(rng, schema, offered, layout)))
+            wider = pa.struct(list(st) + [pa.field("zz_extra", pa.list_(pa.float64()))])
+            return src.astype(NestedDtype(wider)).array
         if entry == "astype":
             ca = struct_from_rows(rng, schema, offered, layout)
             s = pd.Series(ca, dtype=pd.ArrowDtype(st))
@@ -236,6 +247,11 @@ def entry_case(rng, tmpdir, i):
     else:
         want_rows = rows
     want = core.logical(pa.chunked_array([pa.array(want_rows, type=st)], type=st))
+    if entry == "astype_nested":
+        wider = pa.struct(list(st) + [pa.field("zz_extra", pa.list_(pa.float64()))])
+        cast_rows = [None if r is None else dict(r, zz_extra=None) for r in rows]
+        ph = core.phys(pa.chunked_array([pa.array(cast_rows, type=wider)], type=wider))      # what the struct cast hands to the validator
+        want = core.logical(pa.chunked_array([pa.array([None if r is None else dict(r, zz_extra=[]) for r in rows], type=wider)], type=wider))
     if res[0] == "ok":
         impl_term, pq_, lg2, raised = ao.col_result(res)
     else:
@@ -254,6 +270,42 @@ def entry_case(rng, tmpdir, i):
             "meta": {"impl_raised": raised, "ragged": ragged, "entry": entry},
             "sig": [entry, ragged, layout, len(rows), len(schema)], "trivial": False,
             "hist": {"op": "entry_" + entry, "ragged": ragged, "raised": raised}}
+    return with_monitor(case, born)
+
+
+def reduce_pack_case(rng, schema, rows, offered, ragged):
+    """the dotted outputs of a reduce function are packed into a nested column: lists of different lengths for one row
+    are refused like everywhere else (only the LENGTHS of the offered lists matter here; the contents are C10's business)"""
+    names = [n for n, _ in schema]
+    n = len(rows)
+    st = gen.struct_type(schema)
+    nf = NestedFrame({"x": list(range(n))}, index=[f"r{j}" for j in range(n)])
+    nf["n"] = pd.Series(NEA(pa.chunked_array([pa.array(rows, type=st)], type=st)), index=nf.index)
+    shape = [{k: len(r[k] or []) for k in names} if r is not None else {k: 0 for k in names} for r in offered]
+    typed = all(any(sh[k] for sh in shape) for k in names)      # Arrow can infer an element type for every output column
+    counter = [0]
+
+    def fn(x):
+        sh = shape[int(x)]
+        counter[0] += 1
+        return {f"out.{k}": [float(q) for q in range(sh[k])] for k in names}
+
+    def run():
+        out = nf.reduce(fn, "x")
+        return out["out"].array
+    with Born() as born:
+        res = attempt(run)
+    really_ragged = any(len(set(sh.values())) > 1 for sh in shape)
+    ok = (res[0] == "err") if really_ragged else (res[0] == "ok" or not typed)
+    if res[0] == "ok" and not really_ragged:
+        got = [int(v) for v in res[1].list_lengths]
+        ok = ok and got == [sh[names[0]] for sh in shape]
+    case = {"stream": "entry", "op": "entry_reduce_pack", "term": f"[true; {cq_bool(ok)}; true; true]",
+            "input": {"schema": schema, "shape": shape, "ragged": really_ragged, "entry": "reduce_pack"},
+            "impl_repr": ("raised " + res[1]) if res[0] == "err" else "stored",
+            "meta": {"impl_raised": res[0] == "err", "ragged": really_ragged, "entry": "reduce_pack"},
+            "sig": ["reduce_pack", really_ragged, n, len(schema)], "trivial": False,
+            "hist": {"op": "entry_reduce_pack", "ragged": really_ragged, "raised": res[0] == "err"}}
     return with_monitor(case, born)
 
 
